@@ -13,32 +13,33 @@ namespace GrpcProofs.C23
 open GrpcModel.Retry GrpcModel.RetryLoop GrpcModel.PickDone GrpcProofs.Lemmas.Retry GrpcProofs.Lemmas.RetryLoop
 open GrpcProofs.C18 (fresh)
 
-theorem fresh_fo (cstr sstr dis : Bool) (pol : Option Policy) (maxBuf : Int) (thr : Option Throttler) (script : List Beh) :
-    FO (fresh cstr sstr dis pol maxBuf thr script) :=
-  opNew_fo _ rfl rfl rfl rfl
+theorem fresh_fo (cstr sstr dis : Bool) (pol : Option Policy) (maxBuf : Int) (thr : Option Throttler) (script : List Beh)
+    (ns : List (Option Nat)) (f0 : Nat) :
+    FO (fresh cstr sstr dis pol maxBuf thr script ns f0) :=
+  opNew_fo f0 _ rfl rfl rfl rfl
 
 /-- `csAttempt.finish` is idempotent with respect to Done: over every run (every policy, server
     script, buffer limit — negative ones included — and application op sequence, cancellation
     included) no attempt's Done has run more than once. -/
 theorem finish_runs_done_at_most_once (cstr sstr dis : Bool) (pol : Option Policy) (maxBuf : Int) (thr : Option Throttler)
-    (script : List Beh) (ops : List AppOp) (hops : ∀ o ∈ ops, o ≠ .new) (fuel : Nat) :
-    ∀ a ∈ (St.run fuel (fresh cstr sstr dis pol maxBuf thr script) ops).1.atts, a.finishCalls ≤ 1 :=
-  (run_fo fuel ops _ hops (fresh_fo cstr sstr dis pol maxBuf thr script)).1.most
+    (script : List Beh) (ns : List (Option Nat)) (f0 : Nat) (ops : List AppOp) (hops : ∀ o ∈ ops, o ≠ .new) (fuel : Nat) :
+    ∀ a ∈ (St.run fuel (fresh cstr sstr dis pol maxBuf thr script ns f0) ops).1.atts, a.finishCalls ≤ 1 :=
+  (run_fo fuel ops _ hops (fresh_fo cstr sstr dis pol maxBuf thr script ns f0)).1.most
 
 /-- … and every attempt that is no longer the current one (it was abandoned by a retry) has had its
     Done run exactly once: no path out of `retryLocked` forgets `attempt.finish`. -/
 theorem every_attempt_finished_once (cstr sstr dis : Bool) (pol : Option Policy) (maxBuf : Int) (thr : Option Throttler)
-    (script : List Beh) (ops : List AppOp) (hops : ∀ o ∈ ops, o ≠ .new) (fuel : Nat) :
-    ∀ a ∈ (St.run fuel (fresh cstr sstr dis pol maxBuf thr script) ops).1.atts.dropLast, a.finishCalls = 1 :=
-  (run_fo fuel ops _ hops (fresh_fo cstr sstr dis pol maxBuf thr script)).1.older
+    (script : List Beh) (ns : List (Option Nat)) (f0 : Nat) (ops : List AppOp) (hops : ∀ o ∈ ops, o ≠ .new) (fuel : Nat) :
+    ∀ a ∈ (St.run fuel (fresh cstr sstr dis pol maxBuf thr script ns f0) ops).1.atts.dropLast, a.finishCalls = 1 :=
+  (run_fo fuel ops _ hops (fresh_fo cstr sstr dis pol maxBuf thr script ns f0)).1.older
 
 /-- Once `clientStream.finish` has run (the RPC ended: success, failure, send error or
     cancellation) every attempt — the last one included — has had its Done run exactly once. -/
 theorem done_exactly_once_at_end (cstr sstr dis : Bool) (pol : Option Policy) (maxBuf : Int) (thr : Option Throttler)
-    (script : List Beh) (ops : List AppOp) (hops : ∀ o ∈ ops, o ≠ .new) (fuel : Nat)
-    (hfin : (St.run fuel (fresh cstr sstr dis pol maxBuf thr script) ops).1.cs.finished = true) :
-    ∀ a ∈ (St.run fuel (fresh cstr sstr dis pol maxBuf thr script) ops).1.atts, a.finishCalls = 1 :=
-  ((run_fo fuel ops _ hops (fresh_fo cstr sstr dis pol maxBuf thr script)).1.fin hfin).1
+    (script : List Beh) (ns : List (Option Nat)) (f0 : Nat) (ops : List AppOp) (hops : ∀ o ∈ ops, o ≠ .new) (fuel : Nat)
+    (hfin : (St.run fuel (fresh cstr sstr dis pol maxBuf thr script ns f0) ops).1.cs.finished = true) :
+    ∀ a ∈ (St.run fuel (fresh cstr sstr dis pol maxBuf thr script ns f0) ops).1.atts, a.finishCalls = 1 :=
+  ((run_fo fuel ops _ hops (fresh_fo cstr sstr dis pol maxBuf thr script ns f0)).1.fin hfin).1
 
 /-- `clientStream.finish` does end the bookkeeping: whatever the state, afterwards the RPC is
     finished and every attempt's Done has run exactly once (this is the step taken by RecvMsg on
@@ -60,6 +61,14 @@ theorem cancel_finishes (fuel : Nat) (st : St) (h : FO st) :
 theorem abandoned_attempt_finished_before_retry (st : St) (raw : Raw) (h : FO st) :
     ∀ a ∈ (st.decideRetry raw).1.atts, a.finishCalls = 1 :=
   (decideRetry_finv st raw h.1).2.1
+
+/-- An attempt created by the retry code whose stream creation fails (the pick succeeded, then
+    `transport.NewStream` failed) is finished — its Done runs — at the top of the next turn of
+    `retryLocked`'s loop, before `shouldRetry` judges it; it never becomes `cs.attempt`, so nothing
+    else would finish it. -/
+theorem failed_creation_finished_once (st : St) (d : Decision) (c : Nat) :
+    (st.failStep d c).1.failedFin = st.failedFin ++ [1] ∧ (st.failStep d c).1.atts = st.atts :=
+  ⟨rfl, rfl⟩
 
 /-! ### pickerWrapper.pick -/
 
